@@ -223,6 +223,7 @@ type replayRec struct {
 	Tree      string          `json:"tree,omitempty"`
 	Trace     []string        `json:"trace,omitempty"`
 	History   []string        `json:"history,omitempty"`
+	Params    map[string]int  `json:"params,omitempty"`
 }
 
 type job struct {
@@ -347,7 +348,6 @@ func runWorkerWith(bin string, j *job, workDir string, timeout time.Duration, go
 	}
 	return out
 }
-
 
 // ---------------------------------------------------------------------------
 // check tables
